@@ -13,7 +13,7 @@ from optimum.quanto import Calibration, QBytesTensor, QTensor, absmax_scale, qua
 from optimum.quanto.nn import QModuleMixin
 
 AQ = ["qint8", "qfloat8_e4m3fn", "qfloat8_e5m2"]
-MODELS = ["linear", "conv", "ln", "lin-lin", "lin-relu-lin", "ln-lin", "conv-relu-conv", "lone-q-input"]
+MODELS = ["linear", "conv", "ln", "lin-lin", "lin-relu-lin", "lin-inplace-lin", "lin-inplace-lin", "ln-lin", "conv-relu-conv", "lone-q-input"]
 MOMENTA = [0.0, 0.1, 0.5, 0.9, 0.9, 0.99]
 
 
@@ -40,6 +40,23 @@ def cases(draw):
     }
 
 
+class _Inplace(torch.nn.Module):
+    def __init__(self, how):
+        super().__init__()
+        self.how = how
+
+    def forward(self, x):
+        if self.how == 0:
+            x *= 2.0
+        elif self.how == 1:
+            x /= 4.0
+        elif self.how == 2:
+            x += 0.5
+        else:
+            x = x.clamp_(min=-0.25)
+        return x
+
+
 def build(case, g):
     k = case["model"]
     if k in ("linear", "lone-q-input"):
@@ -52,6 +69,10 @@ def build(case, g):
         mods, shape = [M.build_tree({"t": "linear", "i": 8, "o": 6, "bias": True}, g), M.build_tree({"t": "linear", "i": 6, "o": 4, "bias": False}, g)], (8,)
     elif k == "lin-relu-lin":
         mods, shape = [M.build_tree({"t": "linear", "i": 8, "o": 6, "bias": True}, g), torch.nn.ReLU(), M.build_tree({"t": "linear", "i": 6, "o": 4, "bias": True}, g)], (8,)
+    elif k == "lin-inplace-lin":
+        # user code between two layers that updates the quantized output of the first one IN PLACE (x *= k, x += c): whatever
+        # that does to the tensor, the first layer's own output scale is the average of ITS raw outputs
+        mods, shape = [M.build_tree({"t": "linear", "i": 8, "o": 6, "bias": True}, g), _Inplace(case["seed"] % 4), M.build_tree({"t": "linear", "i": 6, "o": 4, "bias": True}, g)], (8,)
     elif k == "ln-lin":
         mods, shape = [M.build_tree({"t": "ln", "shape": [6], "affine": True, "bias": True, "eps": 1e-5}, g), M.build_tree({"t": "linear", "i": 6, "o": 4, "bias": True}, g)], (6,)
     else:
